@@ -819,6 +819,10 @@ pub enum Prelude {
     /// n entries with values of ~1.1-1.6 KB, every second one deleted again: n/2 slots on the
     /// shared large free list
     ManyLargeFree(u32),
+    /// small entries (16-byte key records, 16-byte value records) until BOTH files end `slack`*16
+    /// bytes below `bytes`: the next few calls cross the boundary at which the slot-size estimate of
+    /// an offset field gets a byte wider (16 KiB), with key records that exactly fill their slots
+    NearEnd { bytes: u32, slack: u8 },
 }
 
 /// turn a configuration into a "dense chains" one: hundreds of keys in a table of 1..4 buckets
@@ -957,6 +961,13 @@ fn prelude_ops(p: Prelude, kt: Kt, keys: &mut Vec<Key>) -> Vec<Op> {
             // a request only the buried slot can hold
             ops.push(Op::Put { k: kbig, v: Val::P { len: 5000, seed: 2 } });
         }
+        Prelude::NearEnd { bytes, slack } => {
+            let n = (bytes.saturating_sub(192) / 16).saturating_sub(slack as u32);
+            for i in 0..n {
+                let k = filler(keys, i, 10);
+                ops.push(Op::Put { k, v: Val::P { len: 1, seed: i } });
+            }
+        }
         Prelude::ManyEntries(n) => {
             for i in 0..n {
                                 let k = filler(keys, i, 10);
@@ -974,6 +985,20 @@ pub fn rare_regions(c: &mut HistCfg, index: u64) {
     // maps emptied completely: in the middle (then refilled) and at the end
     c.empty_mid = index % 9 == 2;
     c.empty_end = index % 25 == 7;
+    if index % 20 == 11 {
+        // both files end just below 16 KiB, a table of 1-2 buckets, keys that exactly fill their
+        // records: the next overwrites relocate key records along the chain (cascades up to the head)
+        c.prelude = Prelude::NearEnd { bytes: 16384, slack: (index / 20 % 6) as u8 };
+        c.max_buckets = 2;
+        c.allow_lt8 = true;
+        c.key = KeyProfile::Short;
+        c.n_keys = 2..=8;
+        c.target_pct = 0;
+        c.big_table = None;
+        c.default_table = false;
+        c.empty_mid = false;
+        return;
+    }
     c.special_keys = index % 8 == 3;
     if index % 50 == 21 {
         c.prelude = Prelude::Inflate { val_bytes: 2_200_000, key_bytes: 0 };
